@@ -1389,29 +1389,26 @@ theorem loopless_orthogonal (n : Net) (ns : List (List Rat)) (cutoff : Rat) (x :
 
 /-! ### reduced costs of the flux-balance problem -/
 
-/-- coefficient of the variable `w` in a linear expression -/
-def coefIn (co : List (V × Rat)) (w : V) : Rat := (co.map (fun p => if p.1 = w then p.2 else 0)).sum
-
 /-- reduced cost of the variable `w` under row multipliers `y` (indexed by row name): `c_w − Σ_rows y_row · a_{row,w}` -/
-def Prob.rc (p : Prob) (y : String → Rat) (w : V) : Rat := coefIn p.obj w - (p.rows.map (fun r => y r.name * coefIn r.co w)).sum
+def Prob.rc (p : Prob) (y : String → Rat) (w : V) : Rat := coefAt p.obj w - (p.rows.map (fun r => y r.name * coefAt r.co w)).sum
 
 /-- objective coefficient of reaction `i` -/
 def Net.objCoef (n : Net) (i : Nat) : Rat := (n.obj.map (fun p => if p.1 = i then p.2 else 0)).sum
 
-theorem coefIn_flatMap {α : Type} (l : List α) (f : α → List (V × Rat)) (w : V) :
-    coefIn (l.flatMap f) w = (l.map (fun a => coefIn (f a) w)).sum := by
+theorem coefAt_flatMap {α : Type} (l : List α) (f : α → List (V × Rat)) (w : V) :
+    coefAt (l.flatMap f) w = (l.map (fun a => coefAt (f a) w)).sum := by
   induction l with
   | nil => rfl
   | cons a l ih =>
-    have happ : ∀ u v : List (V × Rat), coefIn (u ++ v) w = coefIn u w + coefIn v w := by
-      intro u v; simp [coefIn, List.sum_append]
+    have happ : ∀ u v : List (V × Rat), coefAt (u ++ v) w = coefAt u w + coefAt v w := by
+      intro u v; simp [coefAt, List.sum_append]
     simp [List.flatMap_cons, happ, ih]
 
-theorem coefIn_flux_fwd (j i : Nat) (c : Rat) : coefIn (flux j c) (.fwd i) = if j = i then c else 0 := by
-  simp [coefIn, flux]
+theorem coefAt_flux_fwd (j i : Nat) (c : Rat) : coefAt (flux j c) (.fwd i) = if j = i then c else 0 := by
+  simp [coefAt, flux]
 
-theorem coefIn_flux_rev (j i : Nat) (c : Rat) : coefIn (flux j c) (.rev i) = if j = i then -c else 0 := by
-  simp [coefIn, flux]
+theorem coefAt_flux_rev (j i : Nat) (c : Rat) : coefAt (flux j c) (.rev i) = if j = i then -c else 0 := by
+  simp [coefAt, flux]
 
 theorem sum_map_zero {α : Type} (l : List α) : (l.map (fun _ => (0 : Rat))).sum = 0 := by
   induction l with
@@ -1445,36 +1442,36 @@ stoichiometric column times `y`, and the reduced cost of the reverse variable is
 theorem fba_reduced_cost (n : Net) (y : String → Rat) (i : Nat) (hi : i ∈ n.idx) :
     n.fba.rc y (.fwd i) = n.objCoef i - (n.mets.map (fun m => y m * coefOf (n.rx i).st m)).sum ∧
     n.fba.rc y (.rev i) = -(n.objCoef i - (n.mets.map (fun m => y m * coefOf (n.rx i).st m)).sum) := by
-  have hobjF : coefIn n.objExpr (.fwd i) = n.objCoef i := by
+  have hobjF : coefAt n.objExpr (.fwd i) = n.objCoef i := by
     unfold Net.objExpr Net.objCoef
-    rw [coefIn_flatMap]
-    exact sum_map_congr _ _ _ (fun p _ => coefIn_flux_fwd p.1 i p.2)
-  have hobjR : coefIn n.objExpr (.rev i) = -n.objCoef i := by
+    rw [coefAt_flatMap]
+    exact sum_map_congr _ _ _ (fun p _ => coefAt_flux_fwd p.1 i p.2)
+  have hobjR : coefAt n.objExpr (.rev i) = -n.objCoef i := by
     unfold Net.objExpr Net.objCoef
-    rw [coefIn_flatMap]
-    have : ∀ l : List (Nat × Rat), (l.map (fun p => coefIn (flux p.1 p.2) (.rev i))).sum = -(l.map (fun p => if p.1 = i then p.2 else 0)).sum := by
+    rw [coefAt_flatMap]
+    have : ∀ l : List (Nat × Rat), (l.map (fun p => coefAt (flux p.1 p.2) (.rev i))).sum = -(l.map (fun p => if p.1 = i then p.2 else 0)).sum := by
       intro l
       induction l with
       | nil => simp
       | cons a l ih =>
         simp only [List.map_cons, List.sum_cons]
-        rw [ih, coefIn_flux_rev]
+        rw [ih, coefAt_flux_rev]
         split <;> ring
     exact this n.obj
-  have hrowF : ∀ m, coefIn (n.metRow m).co (.fwd i) = coefOf (n.rx i).st m := by
+  have hrowF : ∀ m, coefAt (n.metRow m).co (.fwd i) = coefOf (n.rx i).st m := by
     intro m
     unfold Net.metRow
-    rw [coefIn_flatMap]
+    rw [coefAt_flatMap]
     have := sum_ite_eq n.idx (idx_nodup n) i hi (fun j => coefOf (n.rx j).st m)
     rw [← this]
-    exact sum_map_congr _ _ _ (fun j _ => coefIn_flux_fwd j i _)
-  have hrowR : ∀ m, coefIn (n.metRow m).co (.rev i) = -coefOf (n.rx i).st m := by
+    exact sum_map_congr _ _ _ (fun j _ => coefAt_flux_fwd j i _)
+  have hrowR : ∀ m, coefAt (n.metRow m).co (.rev i) = -coefOf (n.rx i).st m := by
     intro m
     unfold Net.metRow
-    rw [coefIn_flatMap]
+    rw [coefAt_flatMap]
     have := sum_ite_eq n.idx (idx_nodup n) i hi (fun j => -coefOf (n.rx j).st m)
     rw [← this]
-    exact sum_map_congr _ _ _ (fun j _ => coefIn_flux_rev j i _)
+    exact sum_map_congr _ _ _ (fun j _ => coefAt_flux_rev j i _)
   have hname : ∀ m, (n.metRow m).name = m := fun _ => rfl
   unfold Prob.rc
   simp only [Net.fba, List.map_map, Function.comp_def, hobjF, hobjR, hrowF, hrowR, hname]
@@ -1534,6 +1531,206 @@ theorem deletion_optimum (n : Net) (hp : n.Proper) (ks : List Nat) (x : V → Ra
   refine ⟨h1, fun i hi hk => ?_, h3⟩
   have := ((close_feasible_iff n ks _).1 h1).1 i hi
   rw [if_pos hk] at this
+  exact this
+
+/-! ### the matrix form the samplers work on -/
+
+/-- a point (one value per variable, in the order of the problem) satisfies the sampler's matrix problem: equalities, boxed inequalities, variable boxes -/
+def SamplerProb.Sat (sp : SamplerProb) (xs : List Rat) : Prop :=
+  (∀ q ∈ sp.equalities.zip sp.b, LPM.dot q.1 xs = q.2) ∧
+  (∀ q ∈ sp.inequalities.zip sp.bounds, inBox q.2 (LPM.dot q.1 xs)) ∧
+  (∀ q ∈ xs.zip sp.varBounds, inBox q.2 q.1)
+
+theorem dot_map_zero {α : Type} (l : List α) (g : α → Rat) : LPM.dot (l.map (fun _ => (0 : Rat))) (l.map g) = 0 := by
+  induction l with
+  | nil => rfl
+  | cons a l ih => simp [LPM.dot, ih]
+
+theorem dot_map_add {α : Type} (l : List α) (f1 f2 g : α → Rat) :
+    LPM.dot (l.map (fun a => f1 a + f2 a)) (l.map g) = LPM.dot (l.map f1) (l.map g) + LPM.dot (l.map f2) (l.map g) := by
+  induction l with
+  | nil => simp [LPM.dot]
+  | cons a l ih => simp only [List.map_cons, LPM.dot, ih]; ring
+
+theorem dot_map_indicator (vs : List V) (hnd : vs.Nodup) (w : V) (c : Rat) (x : V → Rat) (hw : w ∈ vs) :
+    LPM.dot (vs.map (fun u => if w = u then c else 0)) (vs.map x) = c * x w := by
+  induction vs with
+  | nil => simp at hw
+  | cons a l ih =>
+    simp only [List.nodup_cons] at hnd
+    simp only [List.map_cons, LPM.dot]
+    rcases List.mem_cons.1 hw with rfl | hl
+    · have h0 : LPM.dot (l.map (fun u => if w = u then c else 0)) (l.map x) = 0 := by
+        have : l.map (fun u => if w = u then c else 0) = l.map (fun _ => (0 : Rat)) := by
+          apply List.map_congr_left
+          intro u hu
+          have : w ≠ u := fun h => hnd.1 (h ▸ hu)
+          simp [this]
+        rw [this, dot_map_zero]
+      simp [h0]
+    · have hne : w ≠ a := fun h => hnd.1 (h ▸ hl)
+      simp [hne, ih hnd.2 hl]
+
+/-- **a dense row times the point is the row evaluated at the assignment** (distinct variables, the row mentions only variables of the problem) -/
+theorem dot_dense (vs : List V) (hnd : vs.Nodup) (co : List (V × Rat)) (hco : ∀ q ∈ co, q.1 ∈ vs) (x : V → Rat) :
+    LPM.dot (vs.map (fun w => coefAt co w)) (vs.map x) = lin co x := by
+  induction co with
+  | nil =>
+    have : vs.map (fun w => coefAt [] w) = vs.map (fun _ => (0 : Rat)) := by
+      apply List.map_congr_left; intro u _; simp [coefAt]
+    rw [this, dot_map_zero]; rfl
+  | cons a co ih =>
+    have hsplit : vs.map (fun w => coefAt (a :: co) w) = vs.map (fun w => (if a.1 = w then a.2 else 0) + coefAt co w) := by
+      apply List.map_congr_left; intro u _; simp [coefAt]
+    rw [hsplit, dot_map_add, dot_map_indicator vs hnd a.1 a.2 x (hco a (by simp)), ih (fun q hq => hco q (by simp [hq])), lin_cons]
+
+/-- the variables of a problem are pairwise distinct and every row mentions only them -/
+structure Prob.Closed (p : Prob) : Prop where
+  nodup : (p.vars.map (·.v)).Nodup
+  rows : ∀ r ∈ p.rows, ∀ q ∈ r.co, q.1 ∈ p.vars.map (·.v)
+  cont : ∀ w ∈ p.vars, w.kind = .cont
+
+/-- rows the sampler treats as equalities really are equalities whose right-hand side survives the snapping to zero -/
+def Prob.ExactEq (p : Prob) (tol : Rat) : Prop :=
+  ∀ r ∈ p.rows, isEq tol r.lb r.ub = true → r.ub = r.lb ∧ (tol < absR (EB.toRat r.lb) ∨ EB.toRat r.lb = 0)
+
+theorem isEq_fin {tol : Rat} {lb ub : EB} (h : isEq tol lb ub = true) : lb = .fin (EB.toRat lb) ∧ ub = .fin (EB.toRat ub) := by
+  cases lb <;> cases ub <;> simp_all [isEq, EB.toRat]
+
+theorem dense_dot (p : Prob) (hc : p.Closed) (r : Row) (hr : r ∈ p.rows) (x : V → Rat) :
+    LPM.dot (p.dense r.co) (p.vars.map (fun w => x w.v)) = lin r.co x := by
+  have := dot_dense (p.vars.map (·.v)) hc.nodup r.co (hc.rows r hr) x
+  simpa [Prob.dense, List.map_map, Function.comp_def] using this
+
+theorem zip_append_eq {α β : Type} (a1 a2 : List α) (b1 b2 : List β) (h : a1.length = b1.length) :
+    (a1 ++ a2).zip (b1 ++ b2) = a1.zip b1 ++ a2.zip b2 := List.zip_append h
+
+/-- **a point that satisfies the sampler's matrix problem is a feasible point of the solver problem** -/
+theorem sampler_sat_feasible (p : Prob) (tol : Rat) (hc : p.Closed) (hx : p.ExactEq tol) (x : V → Rat)
+    (h : (p.sampler tol).Sat (p.vars.map (fun w => x w.v))) : p.Feasible x := by
+  obtain ⟨he, hi, hv⟩ := h
+  constructor
+  · intro w hw
+    have : ((x w.v, (w.lb, w.ub)) : Rat × (EB × EB)) ∈ (p.vars.map (fun w => x w.v)).zip (p.sampler tol).varBounds := by
+      simp only [Prob.sampler, List.zip_map']
+      exact List.mem_map.2 ⟨w, hw, rfl⟩
+    have hb := hv _ this
+    have hk := hc.cont w hw
+    exact ⟨hb, by simp [hk], by simp [hk]⟩
+  · intro r hr
+    by_cases hq : isEq tol r.lb r.ub = true
+    · -- an equality row
+      have hmem : ((p.dense r.co, if tol < absR (EB.toRat r.lb) then EB.toRat r.lb else 0) : List Rat × Rat) ∈
+          (p.sampler tol).equalities.zip (p.sampler tol).b := by
+        simp only [Prob.sampler]
+        rw [zip_append_eq _ _ _ _ (by simp), List.zip_map']
+        exact List.mem_append_left _ (List.mem_map.2 ⟨r, List.mem_filter.2 ⟨hr, hq⟩, rfl⟩)
+      have hd := he _ hmem
+      simp only at hd
+      rw [dense_dot p hc r hr x] at hd
+      obtain ⟨hub, hz⟩ := hx r hr hq
+      obtain ⟨hl, _⟩ := isEq_fin hq
+      have hval : lin r.co x = EB.toRat r.lb := by
+        rcases hz with hz | hz
+        · rw [if_pos hz] at hd; exact hd
+        · rw [hd, hz]; split <;> rfl
+      rw [hub, hl, hval, Core.inBox_fin]
+      exact ⟨le_refl _, le_refl _⟩
+    · have hq' : (!isEq tol r.lb r.ub) = true := by simpa using hq
+      have hmem : ((p.dense r.co, (r.lb, r.ub)) : List Rat × (EB × EB)) ∈ (p.sampler tol).inequalities.zip (p.sampler tol).bounds := by
+        simp only [Prob.sampler, List.zip_map']
+        exact List.mem_map.2 ⟨r, List.mem_filter.2 ⟨hr, hq'⟩, rfl⟩
+      have hd := hi _ hmem
+      simp only at hd
+      rwa [dense_dot p hc r hr x] at hd
+
+theorem fbaVars_v (n : Net) : n.fbaVars.map (·.v) = n.idx.flatMap (fun i => [V.fwd i, V.rev i]) := by
+  unfold Net.fbaVars
+  rw [List.map_flatMap]
+  rfl
+
+theorem mem_fbaVars_v (n : Net) (w : V) : w ∈ n.fbaVars.map (·.v) ↔ ∃ i ∈ n.idx, w = .fwd i ∨ w = .rev i := by
+  rw [fbaVars_v]
+  simp [List.mem_flatMap]
+
+theorem fbaVars_nodup (n : Net) : (n.fbaVars.map (·.v)).Nodup := by
+  rw [fbaVars_v]
+  have : ∀ l : List Nat, l.Nodup → (l.flatMap (fun i => [V.fwd i, V.rev i])).Nodup := by
+    intro l hl
+    induction l with
+    | nil => simp
+    | cons a l ih =>
+      simp only [List.nodup_cons] at hl
+      have hf : V.fwd a ∉ l.flatMap (fun i => [V.fwd i, V.rev i]) := by
+        simp only [List.mem_flatMap, List.mem_cons, List.not_mem_nil, or_false, not_exists, not_and]
+        intro i hi h
+        rcases h with h | h
+        · exact hl.1 ((V.fwd.inj h) ▸ hi)
+        · cases h
+      have hr : V.rev a ∉ l.flatMap (fun i => [V.fwd i, V.rev i]) := by
+        simp only [List.mem_flatMap, List.mem_cons, List.not_mem_nil, or_false, not_exists, not_and]
+        intro i hi h
+        rcases h with h | h
+        · cases h
+        · exact hl.1 ((V.rev.inj h) ▸ hi)
+      simp only [List.flatMap_cons, List.cons_append, List.nil_append, List.nodup_cons, List.mem_cons]
+      exact ⟨fun h => by rcases h with h | h; cases h; exact hf h, hr, ih hl.2⟩
+  exact this _ (idx_nodup n)
+
+theorem extraRow_lin (name : String) (lb ub : EB) (co : List (Nat × Rat)) (x : V → Rat) :
+    lin (extraRow name lb ub co).co x = (co.map (fun q => q.2 * netOf x q.1)).sum := by
+  simp [extraRow, lin_flatMap, lin_flux]
+
+/-- user constraints over fluxes of reactions of the model -/
+structure Extra where
+  name : String
+  lb : EB
+  ub : EB
+  co : List (Nat × Rat)
+
+def Extra.row (e : Extra) : Row := extraRow e.name e.lb e.ub e.co
+
+theorem fbaWith_closed (n : Net) (extra : List Extra) (hidx : ∀ e ∈ extra, ∀ q ∈ e.co, q.1 ∈ n.idx) :
+    (n.fbaWith (extra.map Extra.row)).Closed := by
+  refine ⟨fbaVars_nodup n, ?_, ?_⟩
+  · intro r hr q hq
+    show q.1 ∈ n.fbaVars.map (·.v)
+    rw [mem_fbaVars_v]
+    simp only [Net.fbaWith, Net.fba, List.mem_append, List.mem_map] at hr
+    rcases hr with ⟨m, _, rfl⟩ | ⟨e, he, rfl⟩
+    · simp only [Net.metRow, List.mem_flatMap, flux, List.mem_cons, List.not_mem_nil, or_false] at hq
+      obtain ⟨i, hi, rfl | rfl⟩ := hq
+      · exact ⟨i, hi, Or.inl rfl⟩
+      · exact ⟨i, hi, Or.inr rfl⟩
+    · simp only [Extra.row, extraRow, List.mem_flatMap, flux, List.mem_cons, List.not_mem_nil, or_false] at hq
+      obtain ⟨c, hc, rfl | rfl⟩ := hq
+      · exact ⟨c.1, hidx e he c hc, Or.inl rfl⟩
+      · exact ⟨c.1, hidx e he c hc, Or.inr rfl⟩
+  · intro w hw
+    have hk : ∀ v ∈ n.fbaVars, v.kind = .cont := by
+      intro v hv
+      simp only [Net.fbaVars, List.mem_flatMap] at hv
+      obtain ⟨i, _, hv⟩ := hv
+      simp only [Net.pairVars, List.mem_cons, List.not_mem_nil, or_false] at hv
+      rcases hv with rfl | rfl <;> rfl
+    exact hk w hw
+
+/-- **a point of the sampler's matrix problem is a feasible flux distribution**: for the problem of a model with user constraints over fluxes,
+a point that satisfies the matrices `HRSampler.__build_problem` builds gives net fluxes at steady state, inside the reaction bounds and inside
+every user constraint -/
+theorem sampler_point_is_feasible_flux (n : Net) (hp : n.Proper) (extra : List Extra) (hidx : ∀ e ∈ extra, ∀ q ∈ e.co, q.1 ∈ n.idx)
+    (tol : Rat) (hx : (n.fbaWith (extra.map Extra.row)).ExactEq tol) (x : V → Rat)
+    (h : ((n.fbaWith (extra.map Extra.row)).sampler tol).Sat ((n.fbaWith (extra.map Extra.row)).vars.map (fun w => x w.v))) :
+    n.Feasible (netOf x) ∧ ∀ e ∈ extra, inBox (e.lb, e.ub) ((e.co.map (fun q => q.2 * netOf x q.1)).sum) := by
+  have hf := sampler_sat_feasible _ tol (fbaWith_closed n extra hidx) hx x h
+  have hpart : FbaPart n x := by
+    constructor
+    · exact (fbaVars_ok n x).1 hf.1
+    · intro r hr
+      exact hf.2 r (by simp only [Net.fbaWith, Net.fba, List.mem_append]; exact Or.inl hr)
+  refine ⟨(fbaPart_sound n hp x hpart).1, fun e he => ?_⟩
+  have := hf.2 e.row (by simp only [Net.fbaWith, List.mem_append, List.mem_map]; exact Or.inr ⟨e, he, rfl⟩)
+  rw [Extra.row, extraRow_lin] at this
   exact this
 
 end AuxM
